@@ -166,7 +166,11 @@ func main() {
 					}
 				}
 				if !found {
-					return false, fmt.Sprintf("replay %d of %d produced %d violations, none with oracle %s", i+1, n, len(got), v.Oracle)
+					var have []string
+					for _, g := range got {
+						have = append(have, g.Oracle+"/"+g.Command)
+					}
+					return false, fmt.Sprintf("replay %d of %d produced %d violations %v, none with oracle %s/%s", i+1, n, len(got), have, v.Oracle, v.Command)
 				}
 			}
 			return true, ""
